@@ -752,3 +752,12 @@ BENIGN["C13"] += [
     (KL, "np.sqrt(np.maximum(rad[i]**2 + rad[j]**2 -", "np.sqrt(np.fmax(rad[i]**2 + rad[j]**2 -"),
     (KL, "np.cos(np.arange(nth) * 2 * np.pi / nth), 0))", "np.cos(np.arange(nth) * 2 * np.pi / nth), 0.))"),
 ]
+
+# ---- encircled_energy: resampling grid vs abscissae (B5.grid-covers-curve; the unchanged tree is a known finding at ratio 1 : 2)
+PSFF = "aotools/image_processing/psf.py"
+SEEDED["C16"] += [
+    (PSFF, "    xi = numpy.linspace(0, dim, int(4 * dim))\n", "    xi = numpy.linspace(0, dim / 2, int(4 * dim))\n", "B5.grid-covers-curve"),
+]
+BENIGN["C16"] += [
+    (PSFF, "    xi = numpy.linspace(0, dim, int(4 * dim))\n", "    xi = numpy.linspace(0, 2 * dim, int(8 * dim))\n"),
+]
